@@ -285,4 +285,22 @@ def applyFollower (ch : Chan) (base : Nat) (recs : List Rec) (leaderHW : Nat) : 
                               leoC := if n > 0 then some nextLEO else ch.leoC }
           (ch, .ok (nextLEO, match ckHW with | some hw => hw | none => 0))
 
+
+/-- `handleForwardCommittedReads` for one item: either an error, or the (retention floor,
+    minISR) handed to `readLocalCommitted`.  Modes (what the leader's metadata lookup yields, local node 1,
+    item fence = leader 1 / epochs 1 unless stated):
+      0 meta found (leader 1, epochs 1, MinISR `mminisr`, RetentionThroughSeq `mrts`)
+      1 meta missing, complete fence  → FALLBACK with the item's RetentionThroughSeq and ExpectedMinISR
+      2 meta missing, ExpectedLeader 0 → the lookup error
+      3 meta names another leader      4 meta epoch older than the fence
+      5 channel deleting               6 meta without a leader -/
+def fwdDecision (mode rts eminisr mminisr mrts : Nat) : String ⊕ (Nat × Nat) :=
+  if mode = 0 then .inr (Nat.max rts mrts, mminisr)
+  else if mode = 1 then .inr (rts, eminisr)
+  else if mode = 2 then .inl "err:notfound"
+  else if mode = 3 then .inl "err:notleader"
+  else if mode = 4 then .inl "err:stalemeta"
+  else if mode = 5 then .inl "err:notfound"
+  else .inl "err:notready"
+
 end WK.C10
